@@ -61,7 +61,7 @@ pub struct SeqFamily {
 fn check_routing(cmds: &[Vec<u8>], st: &mut Stats) -> Result<(), Violation> {
     let conv = Conv::new(cmds.iter().map(|c| ClientCmd::new(c.clone())).collect());
     let s = conv.stream();
-    let exp = expect_for(cmds);
+    let variants = expect_variants(cmds);
     let stream = Arc::new(s.bytes);
     let mut sim = sim_for(&stream, vec![]);
     sim.log_ops = false;
@@ -75,92 +75,115 @@ fn check_routing(cmds: &[Vec<u8>], st: &mut Stats) -> Result<(), Violation> {
         return Err(Violation::new("auth-callback", "first callback is not after_authentication(u)"));
     }
     let got = &got[1..];
-    let mut matched = None;
-    for (k, l) in exp.logs.iter().enumerate() {
-        if l[..] == got[..] && exp.ok[k] == o.res.is_ok() {
-            matched = Some(k);
+    if variants.len() > 1 {
+        st.bump("sequences_with_invalid_utf8");
+    }
+    // the behaviour must be one of the variants the model accepts, completely: callback log,
+    // run_on's result, and a strict decode of everything that was sent
+    let mut first_err: Option<Violation> = None;
+    let mut any_log_match = false;
+    for v in &variants {
+        if v.log[..] != got[..] || v.ok != o.res.is_ok() {
+            continue;
+        }
+        any_log_match = true;
+        match check_replies(cmds, &conv, &s.last_seq, &o, v) {
+            Ok(()) => {
+                if !v.ok {
+                    st.bump("sequences_ending_in_error");
+                }
+                if !v.skipped.is_empty() {
+                    st.bump("refused_commands_answered_and_skipped");
+                }
+                return Ok(());
+            }
+            Err(e) => {
+                if first_err.is_none() {
+                    first_err = Some(e);
+                }
+            }
+        }
+    }
+    if let Some(e) = first_err {
+        return Err(e);
+    }
+    debug_assert!(!any_log_match);
+    // say what differs against the variant that serves the most commands
+    let e = &variants.iter().max_by_key(|v| v.log.len()).unwrap().log;
+    let n = e.len().min(got.len());
+    let mut first = n;
+    for i in 0..n {
+        if e[i] != got[i] {
+            first = i;
             break;
         }
     }
-    let k = match matched {
-        Some(k) => k,
-        None => {
-            // say what differs against the primary expectation
-            let e = &exp.logs[exp.logs.len() - 1];
-            let n = e.len().min(got.len());
-            let mut first = n;
-            for i in 0..n {
-                if e[i] != got[i] {
-                    first = i;
-                    break;
-                }
-            }
-            let key = if first < n {
-                "routing-wrong-callback"
-            } else if got.len() > e.len() {
-                "routing-extra-callback"
-            } else if got.len() < e.len() {
-                "routing-missing-callback"
-            } else {
-                "routing-wrong-result"
-            };
-            return Err(Violation::new(
-                key,
-                format!(
-                    "callback log differs from the routing model at index {}: expected {:?}, got {:?}; run_on returned {}",
-                    first,
-                    e.get(first).map(cb_short),
-                    got.get(first).map(cb_short),
-                    o.res.short()
-                ),
-            )
-            .with(json!({"expected": e.iter().map(cb_short).collect::<Vec<_>>(), "got": got.iter().map(cb_short).collect::<Vec<_>>()})));
-        }
+    let key = if first < n {
+        "routing-wrong-callback"
+    } else if got.len() > e.len() {
+        "routing-extra-callback"
+    } else if got.len() < e.len() {
+        "routing-missing-callback"
+    } else {
+        "routing-wrong-result"
     };
-    if exp.logs.len() > 1 {
-        st.bump("sequences_with_invalid_utf8");
+    Err(Violation::new(
+        key,
+        format!(
+            "callback log differs from the routing model at index {}: expected {:?}, got {:?}; run_on returned {}",
+            first,
+            e.get(first).map(cb_short),
+            got.get(first).map(cb_short),
+            o.res.short()
+        ),
+    )
+    .with(json!({"accepted_logs": variants.iter().map(|v| json!({"log": v.log.iter().map(cb_short).collect::<Vec<_>>(), "run_on_ok": v.ok})).collect::<Vec<_>>(), "got": got.iter().map(cb_short).collect::<Vec<_>>()})))
+}
+
+/// replies for everything answered must decode, and nothing else may have been sent
+fn check_replies(cmds: &[Vec<u8>], conv: &Conv, last_seq: &[u8], o: &Outcome, v: &Variant) -> Result<(), Violation> {
+    let ans = v.answered;
+    let refused = !v.ok;
+    let d = decode_all(&o.sim.out[..o.sim.flushed], conv, last_seq, ans, refused).map_err(|e| Violation::new("reply-decode", e))?;
+    if refused {
+        // a refused command may be answered by one ERR before the connection ends
+        trailing_is_at_most_one_err(&d).map_err(|e| Violation::new("stray-output-after-refusal", e))?;
     }
-    if !exp.ok[k] {
-        st.bump("sequences_ending_in_error");
-    }
-    // replies for everything answered must decode, and nothing else may have been sent
-    let ans = exp.answered[k];
-    if ans != usize::MAX {
-        let refused = !exp.ok[k];
-        let d = decode_all(&o.sim.out[..o.sim.flushed], &conv, &s.last_seq, ans, refused).map_err(|e| Violation::new("reply-decode", e))?;
-        if refused {
-            // a refused command may be answered by one ERR before the connection ends
-            trailing_is_at_most_one_err(&d).map_err(|e| Violation::new("stray-output-after-refusal", e))?;
+    for (i, c) in cmds.iter().take(ans).enumerate() {
+        let r = &d.replies[i];
+        if v.skipped.contains(&i) {
+            // refused but not fatal: the client waits for a reply, and the only conformant one is ERR
+            if !matches!(r[..], [Unit::Err(_)]) {
+                return Err(Violation::new("reply-kind", format!("command {} was not handed to the shim, yet its reply is {:?} instead of one ERR", i, r)));
+            }
+            continue;
         }
         // light reply-kind check for library-answered commands
-        for (i, c) in cmds.iter().take(ans).enumerate() {
-            let r = &d.replies[i];
-            let ok = match c[0] {
-                COM_PING => matches!(r[..], [Unit::Ok { rows: 0, id: 0, .. }]),
-                // any single conformant reply will do for the commands the library answers itself:
-                // the property pins who answers, not the contents
-                COM_FIELD_LIST => matches!(r[..], [Unit::FieldList { .. }] | [Unit::Err(_)]),
-                COM_QUERY if c[1..].starts_with(b"SELECT @@") || c[1..].starts_with(b"select @@") => r.len() == 1,
-                COM_STMT_PREPARE => match &r[..] {
-                    [Unit::PrepareOk { id, .. }] => {
-                        let t = std::str::from_utf8(&c[1..]).unwrap_or("");
-                        *id == parse_prep(t).0
-                    }
-                    _ => false,
-                },
-                COM_STMT_CLOSE | COM_STMT_SEND_LONG_DATA => r.is_empty(),
-                _ => r.len() == 1,
-            };
-            if !ok {
-                return Err(Violation::new(
-                    "reply-kind",
-                    format!("command {} ({:02x?}…) got an unexpected reply {:?}", i, &c[..c.len().min(12)], r),
-                ));
-            }
+        let ok = match c[0] {
+            COM_PING => matches!(r[..], [Unit::Ok { rows: 0, id: 0, .. }]),
+            // any single conformant reply will do for the commands the library answers itself:
+            // the property pins who answers, not the contents
+            COM_FIELD_LIST => matches!(r[..], [Unit::FieldList { .. }] | [Unit::Err(_)]),
+            COM_QUERY if c[1..].starts_with(b"SELECT @@") || c[1..].starts_with(b"select @@") => r.len() == 1,
+            COM_STMT_PREPARE => match &r[..] {
+                [Unit::PrepareOk { id, .. }] => {
+                    let t = std::str::from_utf8(&c[1..]).unwrap_or("");
+                    *id == parse_prep(t).0
+                }
+                _ => false,
+            },
+            COM_STMT_CLOSE | COM_STMT_SEND_LONG_DATA => r.is_empty(),
+            _ => r.len() == 1,
+        };
+        if !ok {
+            return Err(Violation::new(
+                "reply-kind",
+                format!("command {} ({:02x?}…) got an unexpected reply {:?}", i, &c[..c.len().min(12)], r),
+            ));
         }
-        if d.replies.iter().zip(cmds.iter()).any(|(r, c)| r.is_empty() && resp_kind_of(c) != RespKind::None) {
-            return Err(Violation::new("reply-missing", "a command that expects a reply got none"));
-        }
+    }
+    if d.replies.iter().zip(cmds.iter()).any(|(r, c)| r.is_empty() && resp_kind_of(c) != RespKind::None) {
+        return Err(Violation::new("reply-missing", "a command that expects a reply got none"));
     }
     Ok(())
 }
